@@ -78,6 +78,7 @@ def run_sym(prop, tier, case_name, seed):
     stubs.STUB_CALLS.clear()
     env = Env('sym', seed=seed, timeout_ms=case.timeout_ms, pin_tries=case.pin_tries)
     env.deadline = t0 + case.budget_s
+    CTX.deadline = t0 + case.budget_s
     res = dict(case=case_name, paths=0, obls=[], candidates=[], error=None, notes=[], assumptions=[])
     _PROFILE.clear()
 
@@ -101,7 +102,7 @@ def run_sym(prop, tier, case_name, seed):
     except core.Unsupported as e:
         res['error'] = 'unsupported: %s' % (e,)
     except BaseException as e:
-        if type(e).__name__ == 'StopCase':
+        if type(e).__name__ in ('StopCase', 'Budget'):
             if 'budget' in str(e):
                 res['error'] = 'case budget exceeded (%ds) after %d paths' % (case.budget_s, res['paths'])
             else:
